@@ -46,3 +46,39 @@ Example pg_ex_copy :
   pg_lookup (pd_store dst') 8 = Some (PcObj PvNull) /\
   pg_stream_data dst' 9 = Some [65].
 Proof. vm_compute. repeat split; reflexivity. Qed.
+
+(* ---- extension (c13full): the unrestricted theorems start from documents as read (cache never filled) ---- *)
+Example pgx_ex_start : pgx_W (pgx_wc_world 2).
+Proof. exact pages_example_start_lemma. Qed.
+
+(* getAllPages, updateAllPagesCache, re-insertion of a present page (a copy is made), removal of every page (the list
+   becomes empty), pushInheritedAttributesToPage on the empty list, the helper's addPage at the end, a foreign copy,
+   replaceObject with a reserved object and with an indirect dictionary (both rejected) *)
+Definition pgx_ex_history : list pg_op :=
+  [PoGetPages false; PoRefresh false;
+   PoAddPage false (PhObj false 3) true;
+   PoRemove false (PhObj false 3); PoRemove false (PhObj false 4); PoRemove false (PhObj false 5);
+   PoPushInh false;
+   PoHAddPage false (PhDirect pgx_new_page) false;
+   PoCopyForeign true (PhObj false 4);
+   PoReplaceReserved false 3;
+   PoReplaceInd false 3 (PhObj false 4);
+   PoFind true 4].
+
+Lemma pgx_hist_cons : forall w o t w', pgx_adm2 w o -> fst (pg_step w o) = w' -> pgx_hist w' t -> pgx_hist w (o :: t).
+Proof. intros w o t w' Ha <- Ht. split; assumption. Qed.
+Example pgx_ex_history_covered : pgx_hist (pgx_wc_world 2) pgx_ex_history.
+Proof.
+  unfold pgx_ex_history.
+  repeat (eapply pgx_hist_cons;
+          [vm_compute; repeat split; try discriminate; try (intros; discriminate);
+           try (right; repeat split; try reflexivity; try discriminate; try (intros; discriminate)) | vm_compute; reflexivity | ]).
+  exact I.
+Qed.
+
+Example pgx_ex_history_trace :
+  map fst (pgx_trace (pgx_wc_world 2) pgx_ex_history) =
+    [([10; 11], [10; 11]); ([10; 11], [10; 11]); ([10; 10; 11], [10; 11]); ([10; 11], [10; 11]); ([10], [10; 11]); ([], [10; 11]);
+     ([], [10; 11]); ([99], [10; 11]); ([99], [10; 11]); ([99], [10; 11]); ([99], [10; 11]); ([99], [10; 11])]%Z
+  /\ map snd (pgx_trace (pgx_wc_world 2) pgx_ex_history) = [false; false; false; false; false; false; false; false; false; true; true; false].
+Proof. vm_compute. split; reflexivity. Qed.
